@@ -145,7 +145,7 @@ def main(argv=None):
             print(f"HARNESS-ERROR property={prop}: cannot set up system {sysname}: {type(exc).__name__}: {exc}")
             return 2
         for cfg in cfgs:
-            if prop == "C06" and args.tier == "thorough" and cfg.get("n") in (2, 7):
+            if prop == "C06" and args.tier == "thorough" and cfg.get("n") == 2:
                 cfg["compile_all"] = True  # every state's C header is compiled and run in these configurations
             if prop == "C19" and args.tier == "thorough":
                 cfg["twin_depth"] = 99  # queried-vs-untouched twin comparison at every state, not only near the root
